@@ -5,6 +5,8 @@ from ..cfront import walk, strip, callee_name, call_args, render, line_of
 from . import compose as C, x4
 from .x4 import Poly
 
+from . import pathcond
+
 
 def _variants():
     """(label, scheme, base flags, safe flag, sync flag, source) for every scheme that can defer its last half step."""
@@ -111,6 +113,7 @@ def rule_keep_unsynchronized(ctx):
     sites = [('integrator_whfast.c', 'reb_integrator_whfast_synchronize', 'keep_unsynchronized'),
              ('integrator_saba.c', 'reb_integrator_saba_synchronize', 'keep_unsynchronized')]
     n = 0
+    n9 = 0
     samples = []
     for cfile, fname, flag in sites:
         tu = cfront.load_tu(cfile)
@@ -150,6 +153,23 @@ def rule_keep_unsynchronized(ctx):
             if not (backup[0] < c[0] < restore[0]):
                 ctx.report('R09.3', fname + ':order:' + c[1], where, 'operator %s at line %s is not between the backup (line %s) and the restore (line %s)' % (c[1], c[0], backup[0], restore[0]))
         samples.append('%s: backup line %s, %d operator calls, restore line %s' % (where, backup[0], len(ops), restore[0]))
+        # R09.9 (pairing): the scratch buffer is allocated and filled under exactly the path conditions under which it is
+        # restored and released. A backup taken on a path that never restores it leaks the buffer on every call and reads
+        # p_jh where the guard of the restore (is_synchronized == 0) does not hold, i.e. possibly before p_jh exists.
+        pc = pathcond.conditions(fn)
+        by = {}
+        for e in walk(cfront.body(fn)):
+            if e.get('kind') == 'CallExpr' and callee_name(e) in ('malloc', 'memcpy', 'free'):
+                by.setdefault(callee_name(e), []).append(frozenset(pc.get(id(e), ())))
+        anchor(len(by.get('malloc', [])) == 1 and len(by.get('free', [])) >= 1, '%s: scratch malloc and free' % fname)
+        n9 += 1
+        acq, rel = by['malloc'][0], by['free']
+        if by['memcpy'][0] != acq:
+            ctx.report('R09.9', fname + ':backup-cond', where, 'scratch buffer allocated under {%s} but filled under {%s}' % (', '.join(sorted(acq)), ', '.join(sorted(by['memcpy'][0]))))
+        if acq not in rel or by['memcpy'][1] != acq:
+            ctx.report('R09.9', fname + ':pairing', where,
+                       'scratch copy of p_jh is taken under {%s} but restored under {%s} and released under {%s}: on the other paths the buffer leaks and p_jh is read although nothing is to be synchronised (p_jh may not be allocated yet)'
+                       % (', '.join(sorted(acq)), ', '.join(sorted(by['memcpy'][1])), ' | '.join(', '.join(sorted(r_)) for r_ in rel)))
         # X4: with keep_unsynchronized=1 the flag stays 0 after synchronise
         scheme = 'whfast' if 'whfast' in fname else 'saba'
         pre = 'r.ri_%s.' % scheme
@@ -157,6 +177,7 @@ def rule_keep_unsynchronized(ctx):
         n += 1
         if _p(it.flags.get(pre + 'is_synchronized')) != 0:
             ctx.report('R09.3', fname + ':flag', where, 'with keep_unsynchronized the integrator is marked synchronised although its internal state was restored')
+    ctx.covered('R09.9', 'keep_unsynchronized scratch buffer: path conditions of malloc and backup memcpy == those of restore memcpy and free', n9, floor=2)
     ctx.covered('R09.3', 'keep_unsynchronized: backup memcpy / operators / restore memcpy ordering, equal byte counts covering all r->N particles, flag untouched', n, floor=4, samples=samples)
 
 
